@@ -27,11 +27,11 @@ const modPath = "github.com/bolkedebruin/rdpgw"
 
 // Prog is the loaded, type-checked program of /repo's current working tree.
 type Prog struct {
-	Repo  string
-	Fset  *token.FileSet
-	First []*packages.Package          // first-party packages, sorted by path
+	Repo   string
+	Fset   *token.FileSet
+	First  []*packages.Package          // first-party packages, sorted by path
 	ByPath map[string]*packages.Package // first-party by import path
-	All   []*packages.Package          // everything (deps included)
+	All    []*packages.Package          // everything (deps included)
 
 	SSA    *ssa.Program
 	ssaPkg map[*types.Package]*ssa.Package
